@@ -552,6 +552,10 @@ class SCFG(Sized):
                             jt.pop(jt.index(s))
             else:
                 jt.append(new_name)
+            # The jump targets of a region mirror those of its exiting block,
+            # so the exiting block needs to be rerouted too.
+            if isinstance(block, RegionBlock):
+                _reroute_exiting(block, new_name, successors)
             self.add_block(block.replace_jump_targets(jump_targets=tuple(jt)))
 
     def insert_SyntheticExit(
@@ -662,6 +666,10 @@ class SCFG(Sized):
                 branch_variable_value += 1
                 # replace previous successor with synth_assign
                 jt[jt.index(s)] = synth_assign
+                # The jump targets of a region mirror those of its exiting
+                # block, so the exiting block needs to be rerouted too.
+                if isinstance(block, RegionBlock):
+                    _reroute_exiting(block, synth_assign, [s])
             # finally, replace the jump_targets
             self.add_block(
                 self.graph.pop(name).replace_jump_targets(
@@ -937,6 +945,35 @@ class SCFG(Sized):
         numba_scfg.core.datastructures.scfg.SCFGIO.to_dict()
         """
         return SCFGIO.to_dict(self)
+
+
+def _reroute_exiting(
+    region: RegionBlock, new_name: str, successors: List[str]
+) -> None:
+    """Reroute the arcs from the exiting block of a region to any of the
+    given successors through the block named new_name instead.
+
+    This is applied recursively, since the exiting block of a region may be a
+    region itself. Declared backedges are never rerouted.
+    """
+    assert region.subregion is not None
+    assert region.exiting is not None
+    exiting = region.subregion.graph.pop(region.exiting)
+    jt = list(exiting._jump_targets)
+    if successors:
+        for s in successors:
+            if s in jt and s not in exiting.backedges:
+                if new_name not in jt:
+                    jt[jt.index(s)] = new_name
+                else:
+                    jt.pop(jt.index(s))
+    else:
+        jt.append(new_name)
+    if isinstance(exiting, RegionBlock):
+        _reroute_exiting(exiting, new_name, successors)
+    region.subregion.add_block(
+        exiting.replace_jump_targets(jump_targets=tuple(jt))
+    )
 
 
 class SCFGIO:
